@@ -43,3 +43,38 @@ func VH_C09_many_keys_duplicate() {
 	verifAssert("C09.many-keys.every-other-key-kept", total == n-1)
 	verifReach("C09.many-keys.done", true)
 }
+
+// C09: medium-sized key lists (13..21 keys) with one cipher and secret repeated: the first id
+// listed wins wherever the repeat sits (a de-duplication that reorders the list must keep it)
+func VH_C09_repeat_in_medium_list() {
+	n := 13 + verifChoice("distinct-keys", 9)
+	var sc ServiceConfig
+	for i := 0; i < n; i++ {
+		sc.Keys = append(sc.Keys, KeyConfig{ID: "id-" + strconv.Itoa(i), Cipher: "chacha20-ietf-poly1305", Secret: "secret-" + strconv.Itoa(i)})
+	}
+	orig := verifChoice("repeated-key", 3) * (n / 3) // which key is listed again
+	at := []int{n, orig + 1 + (n-orig-1)/2, orig + 1}[verifChoice("repeat-position", 3)] // always after the original
+	rep := KeyConfig{ID: "later", Cipher: sc.Keys[orig].Cipher, Secret: sc.Keys[orig].Secret}
+	keys := append([]KeyConfig{}, sc.Keys[:at]...)
+	keys = append(keys, rep)
+	keys = append(keys, sc.Keys[at:]...)
+	sc.Keys = keys
+	cl, err := newCipherListFromConfig(sc)
+	verifAssert("C09.medium-list.built", err == nil)
+	if err != nil {
+		return
+	}
+	first, later, total := 0, 0, 0
+	for _, el := range cl.SnapshotForClientIP(netip.Addr{}) {
+		switch el.Value.(*service.CipherEntry).ID {
+		case "id-" + strconv.Itoa(orig):
+			first++
+		case "later":
+			later++
+		}
+		total++
+	}
+	verifAssert("C09.medium-list.attributed-to-the-first-id-listed", first == 1 && later == 0)
+	verifAssert("C09.medium-list.every-other-key-kept", total == n)
+	verifReach("C09.medium-list.done", true)
+}
